@@ -18,7 +18,9 @@ RULE = ('histories of 1..10 (quick) / 1..24 (thorough) calls on one SubnetSplitt
         'with prefix chosen relative to the currently free blocks (equal, +1..+3, up to +10, the family width, one shorter '
         'than every free block) and count in {None, 1, 2, 3, 5, 6, 7, max, max+1, 0, -1}; interleaved remove_subnet of a '
         'currently available block. Enumerations are capped at 4096 blocks per call. non-trivial = history in which at '
-        'least one extraction returned blocks')
+        'least one extraction returned blocks. The oracle decides from the previously observed available list which of [] / '
+        'ValueError / blocks each extract call must give (best-fitting free block, count within its 2^(prefix-p) slots) and '
+        'compares the returned list with the first count aligned blocks of a best-fitting block, in order')
 CAP = 12          # log2 of the largest enumeration a call may cause
 
 
@@ -90,6 +92,10 @@ def corpus():
         [('e', 26, 3), ('e', 25, None), ('e', 26, 1), ('e', 26, 1)],
         # the scenario of test_ip_splitter.py
         [('e', 28, 10), ('e', 28, 1)],
+        # audit 2b finding 1: best fit, no fall-through to a larger block, exact blocks
+        [('e', 26, 1), ('e', 27, 3), ('e', 27, 2), ('e', 25, 1), ('e', 26, None)],
+        [('e', 26, 1), ('e', 25, 2), ('e', 25, None), ('e', 28, 5), ('e', 28, 4), ('e', 28, 0), ('e', 28, -1)],
+        [('e', 27, 1), ('e', 28, 3), ('e', 28, 2), ('e', 26, 2), ('e', 26, 1), ('e', 24, 1), ('e', -1, None)],
         [('e', 26, 5)], [('e', 23, None)], [('e', 24, None), ('e', 24, None)], [('e', 32, 256), ('e', 32, 1)],
     ]
     for plan_ops in fixed:
@@ -200,6 +206,24 @@ def _plist_parse(s):
     return out
 
 
+def _expected_outcome(ver, avail, prefix, count):
+    """what extract_subnet(prefix, count) must answer on the free blocks `avail` (triples):
+    ('empty', None, None) | ('value', best, None) | ('blocks', best, c); None outside the domain
+    (prefix beyond the family width)"""
+    w = W[ver]
+    if prefix > w or any(a[0] != ver or not 0 <= a[2] <= w for a in avail):
+        return None
+    fits = [a[2] for a in avail if a[2] <= prefix]
+    if not fits:
+        return ('empty', None, None)
+    best = max(fits)                    # available_subnets() order: longest prefix first
+    slots = 1 << (prefix - best)
+    c = slots if count is None else count
+    if not 1 <= c <= slots:
+        return ('value', best, None)    # the loop stops at the first block subnet() is non-empty / raises for
+    return ('blocks', best, c)
+
+
 def oracle(c, got):
     """the history invariant, from integers only"""
     _, ver, v, p, ops = c.args
@@ -236,6 +260,36 @@ def oracle(c, got):
             gone.append((tgt[1], _last(*op[1:]), 'removed'))
         else:
             _, prefix, count, _hint = op
+            # the exact outcome (Props/C20Audit2.lean extract_outcome_iff), from integers only: which of
+            # [] / ValueError / blocks must come, and which blocks
+            exact = _expected_outcome(ver, avail, prefix, count)
+            if exact is not None:
+                kind, best, c = exact
+                if kind == 'empty' and obs != '[]':
+                    return '%s: no free block has a prefix <= %d, [] expected, got %s' % (where, prefix, obs[:120])
+                if kind == 'value' and obs != '!value':
+                    return ('%s: the best-fitting free block (/%d) has %d slots of /%d, count=%s cannot be met from it: '
+                            'ValueError expected, got %s' % (where, best, 1 << (prefix - best), prefix, count, obs[:120]))
+                if kind == 'blocks':
+                    if obs.startswith('!') or obs == '[]':
+                        return ('%s: request refused (%s) although the best-fitting free block (/%d) has room for %d '
+                                'blocks of /%d' % (where, obs, best, c, prefix))
+                    try:
+                        ret = _plist_parse(obs)
+                    except Exception:
+                        return '%s: unreadable result %s' % (where, obs)
+                    if len(ret) != c:
+                        return '%s: %d blocks returned, %d expected' % (where, len(ret), c)
+                    cands = [a for a in avail if a[2] == best and _first(*a) == ret[0][1]]
+                    if not cands:
+                        return ('%s: the first returned block %s is not the first /%d block of a best-fitting (/%d) free '
+                                'block' % (where, _show(ret[0]), prefix, best))
+                    f0, size = _first(*cands[0]), 1 << (w - prefix)
+                    for j, t in enumerate(ret):
+                        if t != (ver, f0 + j * size, prefix):
+                            return ('%s: returned block #%d is %s, expected %s (the first %d aligned /%d blocks of the '
+                                    'free block %s, in order)' % (where, j, _show(t), _show((ver, f0 + j * size, prefix)),
+                                                                  c, prefix, _show(cands[0])))
             if obs.startswith('!') or obs == '[]':
                 if obs not in ('!value', '[]'):
                     return '%s: failed with %s (only [] or ValueError are allowed)' % (where, obs)
